@@ -4,8 +4,9 @@ import MpireModel.Proofs.History
 # C06 — a pool stays fully correct after any failed call
 
 `ops` is ANY finite history of operations on one pool object (map-family calls in either ordering mode with any
-parameters and ANY outcome — success, handled failure, lazy call left open, lazy call closed early —, the setters,
-stop_and_join, terminate).  `callStart` is the prologue of the next map-family call up to the point where it starts
+parameters and ANY outcome — success, handled failure, lazy call left open, lazy call closed early, rejected while its
+arguments are validated —, batches of apply/apply_async submissions that settle task by task or flag the whole pool as
+failed (worker_init / worker_exit error), the setters, stop_and_join, terminate).  `callStart` is the prologue of the next map-family call up to the point where it starts
 dispatching.  With the per-call state fresh, the call is an instance of the single-call protocol of C01/C02.
 -/
 namespace Mpire.C06
@@ -24,8 +25,21 @@ theorem rejected_only_while_open (ops : List Op) (ordered : Bool) (p : ParamsId)
 
 /-- … and a call that finished, failed or whose generator was closed is no longer open. -/
 theorem closed_or_finished_is_not_running (ops : List Op) (ordered : Bool) (p : ParamsId) (o : Outcome)
-    (ho : ∀ d c, o ≠ .leftOpen d c) : (runOps {} (ops ++ [.call ordered p o])).mapRunning = false :=
-  Mpire.Proofs.History.closed_or_finished_is_not_running ops ordered p o ho
+    (ho : ∀ d c, o ≠ .leftOpen d c) (hr : o ≠ .rejected) : (runOps {} (ops ++ [.call ordered p o])).mapRunning = false :=
+  Mpire.Proofs.History.closed_or_finished_is_not_running ops ordered p o ho hr
+
+/-- A call that is rejected while its arguments are validated starts nothing and leaves nothing behind: in particular not
+the order mode it had announced. -/
+theorem rejected_call_leaves_nothing (ops : List Op) (ordered : Bool) (p : ParamsId) :
+    runOps {} (ops ++ [.call ordered p .rejected]) = { runOps {} ops with keepOrder := false } := by
+  rw [Mpire.Proofs.History.runOps_snoc]; exact Mpire.Proofs.History.rejected_changes_nothing _ ordered p
+
+/-- After an apply batch that flagged the pool as failed (worker_init / worker_exit error) the next call does not reuse the
+stopped workers and does not see the stale exception flag. -/
+theorem next_call_after_failed_apply_starts_workers (ops : List Op) (o2 : Bool) (p q : ParamsId) (d : Nat) (c : List Nat)
+    (s1 : Ctl) (h : callStart (runOps {} (ops ++ [.apply p (.poolFailed d c)])) o2 q = some s1) :
+    s1.generation = (runOps {} (ops ++ [.apply p (.poolFailed d c)])).generation + 1 ∧ s1.excFlag = false :=
+  Mpire.Proofs.History.next_call_after_failed_apply_starts_workers ops o2 p q d c s1 h
 
 /-- After a failed (or early-closed) call no worker survives, and the next call starts fresh ones. -/
 theorem failure_drops_workers (ops : List Op) (ordered : Bool) (p : ParamsId) (d : Nat) (c : List Nat) :
@@ -41,5 +55,9 @@ theorem next_call_after_failure_starts_workers (ops : List Op) (o1 o2 : Bool) (p
 example : (callStart (runOps {} [.setKeepAlive true, .call true 1 (.ok 3 [0, 1]), .call false 1 (.fails 2 [1]),
     .call true 2 (.leftOpen 1 []), .call false 3 (.ok 1 [])]) false 4).map (fun s => (s.keepOrder, s.excFlag, s.taskIdx, s.workers)) =
     some (false, false, 0, some 4) := by decide +kernel
+
+example : (callStart (runOps {} [.apply 1 (.settled 4 [0, 1, 1]), .call true 2 .rejected, .apply 1 (.poolFailed 2 [0]),
+    .call false 3 (.fails 1 [])]) false 4).map (fun s => (s.excFlag, s.taskIdx, s.workers, s.generation)) =
+    some (false, 0, some 4, 3) := by decide +kernel
 
 end Mpire.C06
